@@ -137,11 +137,12 @@ type CaseRec struct {
 	sigs      map[string]string // key -> sexp line
 	addrs     map[string]string
 	Mon       *ChainMonitor
+	admitted  map[string]bool
 }
 
 func NewCaseRec(id string, n *Node, universe []string) *CaseRec {
 	return &CaseRec{Id: id, Node: n, Universe: universe, outs: map[string]bool{}, stamps: map[int64]bool{},
-		sigs: map[string]string{}, addrs: map[string]string{}}
+		sigs: map[string]string{}, addrs: map[string]string{}, admitted: map[string]bool{}}
 }
 
 func (c *CaseRec) noteTx(t *ledger.Transaction) {
@@ -201,6 +202,7 @@ func (c *CaseRec) record(kind string, opHead string, res string) {
 		c.Mon.CheckChain(blocks, step)
 		c.Mon.CheckStable(blocks, step, kind == "update")
 		c.Mon.CheckDerived(c.Node, blocks, c.Universe, step)
+		c.Mon.CheckPool(c.Node.Pool.Transactions(), c.admitted, step)
 	}
 	d := "R=" + res + "#" + c.Node.Digest(c.Universe)
 	c.Digests = append(c.Digests, d)
@@ -272,6 +274,9 @@ func (c *CaseRec) Admit(t *ledger.Transaction) string {
 				res = "err:" + classify(l)
 			}
 		}
+	}
+	if res == "ok" {
+		c.admitted[t.Id()] = true
 	}
 	if res == "ok" && c.Mon != nil {
 		c.Mon.CheckAdmit(t, n.Chain.LastBlockTimestamp(), n.Chain.LastBlockTransactions(), poolBefore, fmt.Sprintf("op %d (admit)", len(c.Ops)))
